@@ -198,9 +198,37 @@ fn handle_on_connection(
     remote: SocketAddr,
     s: &TcpSegment,
 ) {
-    // RST trumps all other processing. Tear the connection down and
-    // wake every parked task with ConnectionReset.
+    // RST tears the connection down and wakes every parked task with
+    // ConnectionReset — unless the connection is already finished.
     if s.flags.rst {
+        let st = k.lookup_mut(fd).expect("fd present");
+        let tcb = st.tcb.as_mut().expect("tcb present");
+        match tcb.state {
+            // Handshake: the RST answers our SYN / SYN-ACK.
+            TcpState::SynSent | TcpState::SynReceived => {}
+            // Already terminated; nothing a late RST could add.
+            TcpState::Closed => return,
+            _ => {
+                // There is no TIME-WAIT, so a window update, a
+                // retransmitted FIN or a delayed segment can reach the
+                // peer after it reaped its socket and come back as a
+                // RST. Once FINs have been exchanged in both directions
+                // the stream is complete: finish the close instead of
+                // reporting ConnectionReset (which would also discard
+                // bytes and the EOF the app has not read yet).
+                if tcb.peer_fin && tcb.fin_seq.is_some() {
+                    tcb.state = TcpState::Closed;
+                    st.wake_read();
+                    st.wake_write();
+                    return;
+                }
+                // Stale RST (e.g. the answer to an old duplicate): it
+                // must fall in the receive window.
+                if s.seq.wrapping_sub(tcb.rcv_nxt) > u16::MAX as u32 {
+                    return;
+                }
+            }
+        }
         abort_connection(k, fd);
         return;
     }
